@@ -21,8 +21,9 @@ RULE = ('one case = one Configurator program (security policy absent / truthy ob
         'NO_PERMISSION_REQUIRED, constructor or directive; routes; 2-9 add_view / add_notfound_view(append_slash) / '
         'add_forbidden_view / add_exception_view / add_view(context=ExcClass) / add_static_view statements with permission '
         'absent / name / falsy / NO_PERMISSION_REQUIRED, predicates, wrapper=, decorator=, five view kinds, bodies that return or '
-        'raise; statements shuffled, the policy statement last in a quarter of the cases; optionally a second commit with '
-        'overrides) x a random decision table x 8-12 requests through Router.__call__; observation = ordered log of '
+        'raise; class views whose permission comes from @view_defaults on the class or on a base class; statements shuffled, the '
+        'policy statement last in a quarter of the cases; optionally a second commit with overrides and with views for more '
+        'specific contexts, the application serving requests between the two commits) x a random decision table x 8-12 requests through Router.__call__; observation = ordered log of '
         'policy.permits calls (answers of several truthy/falsy kinds), decorator entries, view-body executions, the exception the '
         'main handler raised, and the final response or propagated exception. non-trivial = a policy is declared, at least one '
         'request ran a body right after a granted check and at least one request was refused; distinct by full case')
@@ -63,13 +64,15 @@ LEVEL_TEXT = ('Machine-checked theorems over the request path REGENERATED from t
               'its call and raises HTTPForbidden (403 handling, or propagation while an exception view is rendered); views without a '
               'closed-over permission cause no policy call; the closed-over permission is characterised by the table (explicit, else '
               'default unless exception-only, marker = none, no policy = none); views are derived under the final phase-1/2 state of '
-              'their commit whatever the statement order (also for sequences of commits); secured_view is the outermost sorted deriver, '
+              'their commit whatever the statement order (also for sequences of commits); the @view_defaults permission of a view class is its '
+              'explicit permission; secured_view is the outermost sorted deriver, '
               'csrf_view directly under it; the judge clauses J1/J2 accept every model trace; secure=False is never used by the router.')
 LEVEL_NOTE = ('Trusted: Coq kernel; the translator\'s primitive table and assumptions A1-A4; the hand-written model for the parts that '
               'are not regenerated (shape-pinned, validated by correspondence); Python harness; zope.interface as oracle. A semantics-'
               'preserving rewrite of a translated function raises no alarm; a semantic change makes a generated_is_model theorem fail and '
               'the correspondence/judge run produces the replay. C03 (a dependency) still pins _call_view/_find_views whole. Judge '
-              'clauses J3-J6 are validated by the run, not proved at judge level.')
+              'clauses J3-J7 (J7 = C03\'s most-specific-view specification, also for a registry that served requests before a later '
+              'commit) are validated by the run, not proved at judge level.')
 
 _facts_cache = {}
 
@@ -156,7 +159,7 @@ def _stmt_wire(w, s):
         riface = w.cfg.registry.queryUtility(P['IRouteRequest'], name='__static/')
         req = w.iid(riface) if riface is not None else 1
         vo = [s['tag'], req, w.iid(P['Interface']), '', [], None if s['perm'] is None else [W.perm_text(s['perm'])],
-              False, False, '', False, 0, False]
+              False, False, '', False, 0, False, None]
         return [7, vo]
     if k == 'view':
         ctxo = P['classes'][s['ctx']] if s['ctx'] is not None else None
@@ -170,10 +173,35 @@ def _stmt_wire(w, s):
     vo = [s['tag'], req, w.iid(spec), name, _kw_wire(s.get('preds', {})),
           None if s.get('perm') is None or k != 'view' else [W.perm_text(s['perm'])],
           bool(isexception(ctxo)), bool(s.get('exc_only')) and k == 'view', s.get('wrapper') or '', bool(s.get('deco')),
-          BEHAVE[s['behave']], bool(s.get('csrf')) and k == 'view']
+          BEHAVE[s['behave']], bool(s.get('csrf')) and k == 'view', _vd_perm(s) if k == 'view' else None]
     if k == 'notfound':
         return [5, vo, bool(s.get('append_slash'))]
     return [KCODE[k], vo]
+
+
+def _vd_perm(s):
+    """(oracle) what the viewdefaults decorator reads: getattr(view, '__view_defaults__', {}).get('permission') for a class"""
+    import inspect
+    view, _, _ = W.make_view(s['tag'], s['kind'], s['behave'], s.get('vd'))
+    if not inspect.isclass(view):
+        return None
+    d = getattr(view, '__view_defaults__', {})
+    if 'permission' not in d:
+        return None
+    return [W.perm_text(W.perm_token(d['permission']))]
+
+
+def _req_wire(w, r):
+    o = w.oracle(r)
+    return [r['method'], bool(r['xhr']), list(r['truth']), o['vname'], [0, o['res']], o['req_sro'], o['comb_sro'],
+            o['wrap_sro'], o['ctx_sro'], o['exc_sro'], r['method'] == 'GET' or bool(r.get('csrf'))]
+
+
+def _iface_ids(w):
+    P = W._P
+    from webob.exc import WSGIHTTPException
+    from pyramid.interfaces import IExceptionResponse
+    return w.iid(P['IRequest']), w.iid(IExceptionResponse), w.iid(P['implementedBy'](WSGIHTTPException))
 
 
 def _batches(case):
@@ -190,15 +218,10 @@ def to_wire(case):
     w = W.World(case)
     if w.error:
         return [9]
-    P = W._P
-    from webob.exc import WSGIHTTPException
-    from pyramid.interfaces import IExceptionResponse
-    irq, ier, iwsgi = w.iid(P['IRequest']), w.iid(IExceptionResponse), w.iid(P['implementedBy'](WSGIHTTPException))
+    irq, ier, iwsgi = _iface_ids(w)
     reqs = []
     for r in case['requests']:
-        o = w.oracle(r)
-        base = [r['method'], bool(r['xhr']), list(r['truth']), o['vname'], [0, o['res']], o['req_sro'], o['comb_sro'],
-                o['wrap_sro'], o['ctx_sro'], o['exc_sro'], r['method'] == 'GET' or bool(r.get('csrf'))]
+        base = _req_wire(w, r)
         reqs.append([9, bool(r['secure']), base] if r.get('op') == 'render' else base)
     bw = _batches_wire(w, case)          # after the oracles: every interface has its id by now
     return [0, irq, ier, iwsgi, bw, [[W.perm_text(p), _ctx_wire(c)] for p, c in case['grants']], reqs]
@@ -309,13 +332,13 @@ def masks_of(case, obs, spec):
                              (e[0] == 'raised' and e[1] not in W.EXC_KINDS) or
                              (e[0] != 'raised' and e[2][0] not in (0, 1)) for e in evs):
             return [64] * len(obs)          # something outside the vocabulary happened (unknown exception ...)
-        items.append([[_ev_wire(e) for e in evs], ow])
+        items.append([i, [_ev_wire(e) for e in evs], ow])
     w = W.World(case)
     if w.error:
         return None
-    for r in case['requests']:
-        w.oracle(r)
-    res = _judge_call([1, _batches_wire(w, case), items])
+    irq, ier, iwsgi = _iface_ids(w)
+    rws = [_req_wire(w, r) for r in case['requests']]
+    res = _judge_call([1, irq, ier, iwsgi, _batches_wire(w, case), [[rws[i], evs, ow] for i, evs, ow in items if i < len(rws)]])
     if res is None or res == [['bad']] or len(res) != len(todo):
         return None
     for i, m in zip(todo, res):
@@ -411,6 +434,8 @@ def kinds(case, obs):
             ks.append('policy-written-last-in-its-commit')
     ks.append('defperm:' + ('none' if not dp else dp[0]['perm'] + ('-ctor' if dp[0]['ctor'] else '')))
     ks.append('commits:%d' % (1 if case.get('cut') is None else 2))
+    if case.get('warm'):
+        ks.append('case:requests-served-between-the-commits')
     for s in case['stmts']:
         if s['k'] in ('notfound', 'forbidden', 'excview', 'static'):
             ks.append('stmt:' + s['k'])
@@ -423,6 +448,8 @@ def kinds(case, obs):
                 ks.append('stmt:wrapper')
             if s.get('csrf'):
                 ks.append('stmt:require_csrf')
+            if s.get('vd'):
+                ks.append('stmt:view_defaults-' + s['vd']['where'])
     for r in case['requests']:
         if r.get('op') == 'render':
             ks.append('req:render-' + ('secure' if r['secure'] else 'permissive'))
@@ -466,4 +493,5 @@ def explain(item):
                           2: 'refusal not followed by 403 handling', 4: 'refusal while rendering an exception view: HTTPForbidden left the app',
                           8: 'granted check not on behalf of the view that ran next', 16: 'HTTPForbidden without a refusal or an application raise',
                           32: 'policy asked about a permission that protects no view for that context', 64: 'observation outside the vocabulary',
-                          128: 'the callable of a statement that a later commit overrides (same slot, same predicates) ran'}}
+                          128: 'the callable of a statement that a later commit overrides (same slot, same predicates) ran',
+                          256: 'the view that ran first is not a most specific qualifying one (C03 spec_winners): e.g. a stale lookup'}}
